@@ -142,6 +142,12 @@ where
     // group, `a|b` would anchor `a` at the start only and `b` at the end only.
     let file_filter = Regex::new(&format!("^(?:{file_filter})$"))?;
 
+    // A hunk header announces how many lines of the pre-image and of the post-image follow. While
+    // they last a line is hunk content, whatever it looks like: an added line whose text begins
+    // with `++ ` is not the header of another file.
+    let hunk_pattern = Regex::new(r"^@@ -\d+(?:,(\d+))? \+\d+(?:,(\d+))? @@").unwrap();
+    let (mut old_left, mut new_left) = (0u32, 0u32);
+
     let mut current_file = None;
     let mut after_pre_image_header = false;
 
@@ -149,6 +155,41 @@ where
     let mut ranges = vec![];
     for line in io::BufReader::new(from).lines() {
         let line = line.unwrap();
+
+        if old_left > 0 || new_left > 0 {
+            match line.as_bytes().first() {
+                Some(b'+') => {
+                    new_left = new_left.saturating_sub(1);
+                    continue;
+                }
+                Some(b'-') => {
+                    old_left = old_left.saturating_sub(1);
+                    continue;
+                }
+                // (an empty line: a context line that lost its blank on the way)
+                Some(b' ') | None => {
+                    old_left = old_left.saturating_sub(1);
+                    new_left = new_left.saturating_sub(1);
+                    continue;
+                }
+                Some(b'\\') => continue,
+                // Not the content the header announced: trust the line, not the counts.
+                _ => {
+                    old_left = 0;
+                    new_left = 0;
+                }
+            }
+        }
+        if let Some(captures) = hunk_pattern.captures(&line) {
+            let count = |i| {
+                captures
+                    .get(i)
+                    .map_or(Some(1), |m| m.as_str().parse::<u32>().ok())
+                    .unwrap_or(0)
+            };
+            old_left = count(1);
+            new_left = count(2);
+        }
 
         if let Some(captures) = diff_pattern.captures(&line) {
             current_file = Some(captures.get(1).unwrap().as_str().to_owned());
